@@ -85,7 +85,19 @@ def rules(ck, P):
         none_block = any(s_.get("k") == "if" and ir.diverges(s_["then"]) and ir.contains(s_["c"], lambda y: y.get("k") == "mcall" and y.get("name") == "is_none") and
                          ir.contains(s_["then"], lambda y: (y.get("q") or "").endswith("Option::None::{Ctor#0}")) for s_ in sts)
         ck.check(none_block, "R-SPARSE", g["q"] + "|missing-block", "lookup: a block that is not in the index means 'no tile'", "lookup does not treat a missing block as 'no tile'", ir.loc(g))
-        part = any(s_.get("k") == "if" and ir.diverges(s_["then"]) and ir.contains(s_["c"], lambda y: y.get("k") == "mcall" and y.get("name") == "contains2") for s_ in sts)
+        glets = comp.lets_of(g)
+        cpar = [x["name"] for p_ in g["params"] for x in ir.pat_binds(p_) if x["t"].endswith("TileCoord3")]
+
+        def partial_guard(s_):
+            if s_.get("k") != "if" or not ir.diverges(s_["then"]) or not ir.contains(s_["then"], lambda y: (y.get("q") or "").endswith("Option::None::{Ctor#0}")):
+                return False
+            c = ir.unparen(s_["c"])
+            if c.get("k") != "un" or c.get("op") != "!":
+                return False
+            m = ir.unparen(ir.strip(c["e"]))
+            return m.get("k") == "mcall" and m.get("name") in ("contains2", "contains3") and comp.deep_place(m["recv"], glets).endswith(".get_global_bbox()") and \
+                bool(cpar) and comp.deep_place(m["a"][0], glets).split(".")[0] == cpar[0]
+        part = any(partial_guard(s_) for s_ in sts)
         ck.check(part, "R-SPARSE", g["q"] + "|partial-block", "lookup: a coordinate outside a partial block's box means 'no tile'", "lookup does not handle partial blocks", ir.loc(g))
         zero = ir.contains(g["body"], lambda y: y.get("k") == "if" and ir.cmp_norm(y["c"]) is not None and ir.cmp_norm(y["c"])[0].endswith("range.length") and ir.cmp_norm(y["c"])[2] == "0")
         ck.check(zero, "R-SPARSE", g["q"] + "|empty-entry", "lookup: an index entry of length 0 means 'no tile'", "zero-length index entries are not treated as absent", ir.loc(g))
@@ -147,6 +159,7 @@ def rules(ck, P):
 
     # ---------------- R-CACHE-KEY: a cached value is a function of its key
     _cache_key_rules(ck, P)
+    wire.block_geometry_rules(ck, P)
     # ---------------- R-TAR-PREFIX
     tr = [b for b in P.bodies if b["q"].endswith("tar::reader::TarTilesReader::open_path")]
     if ck.anchor("R-TAR-PREFIX", "tar open_path", tr, 1):
